@@ -767,6 +767,7 @@ def run(ctx: Ctx):
 _RW = "urwid/display/_raw_display_base.py"
 _HT = "urwid/display/html_fragment.py"
 MUTANTS = [
+    Mut("twin-rows-used-test-flipped", "urwid/display/_raw_display_base.py", "urwid.display._raw_display_base.Screen.draw_screen", "if partial_display() and y > self._rows_used:", "if partial_display() and self._rows_used < y:", twin=True),
     Mut("set-encoding-keeps-utf8-spelling", "urwid/util.py", "set_encoding", "        encoding = \"utf-8\"  # the one spelling get_encoding() reports and the display modules compare with\n", "", "TAB|util.set_encoding|spellings ['utf', 'utf8'] not normalised to 'utf-8'"),
     Mut("erase-shortcut-strips-all-whitespace", _RW, "urwid.display._raw_display_base.Screen.draw_screen", 'run.rstrip(b" ")', "run.rstrip()", "SIB|display._raw_display_base.Screen.draw_screen|strip run.rstrip() does not match the tested byte"),
     Mut("insert-cell-unfiltered", _RW, "urwid.display._raw_display_base.Screen.draw_screen", "                    if insertcs != \"U\":\n                        inserttext = inserttext.translate(UNPRINTABLE_TRANS_TABLE)\n", "", "TAINT|display._raw_display_base.Screen.draw_screen|cell text inserttext decoded without the control-character filter"),
